@@ -450,6 +450,35 @@ func runC09(r *mc.Run) {
 		})
 		r.SectionDone(mc.Section{Name: "field-fills", Evaluations: int64(done), Exhaustive: done == len(zs)})
 	}
+	// a quote followed by zero bytes up to a round total (a page, a kilobyte, a power of two ...): trailing bytes are
+	// kept whatever they are and however many
+	{
+		b := bases[0]
+		var zs []rawCase
+		for _, unit := range []int{512, 1024, 4096, 16384, 65536} {
+			for mult := 1; mult <= 4; mult++ {
+				total := ((len(b.raw) + unit - 1) / unit * unit) + (mult-1)*unit
+				for _, fill := range []byte{0x00, 0xff} {
+					for _, d := range []int{0, 1, -1} {
+						if total+d <= len(b.raw) {
+							continue
+						}
+						m := append([]byte(nil), b.raw...)
+						for len(m) < total+d {
+							m = append(m, fill)
+						}
+						zs = append(zs, rawCase{fmt.Sprintf("padded-to/%d*%d%+d,fill=%02x", mult, unit, d, fill), m})
+					}
+				}
+			}
+		}
+		done := r.Parallel(len(zs), func(i int) {
+			if r.Want(zs[i].id) {
+				c09JudgeRaw(r, zs[i], "padded")
+			}
+		})
+		r.SectionDone(mc.Section{Name: "padded-to-round-totals", Evaluations: int64(done), Exhaustive: done == len(zs)})
+	}
 	c09Retention(r, bases)
 	c09SharedBuffers(r, bases[0])
 	// (d) field identity: every single-bit mutant of a quote whose fields all differ.
